@@ -4,7 +4,8 @@ from ._util import H, KGroup, INT_TYPES, PTR_TYPES, lemire_rows
 
 def plan(tier, seed):
     groups = []
-    ints = [H("c04::k1_%s_4" % t, "integer parse+parse_partial: Kani's automatic panic/overflow/pointer checks + index<=len", "arbitrary bytes len<=4") for t in INT_TYPES]
+    ln = lambda t: 3 if (tier == "quick" and t[0] == "i") else 4
+    ints = [H("c04::k1_%s_%d" % (t, ln(t)), "integer parse+parse_partial: Kani's automatic panic/overflow/pointer checks + index<=len", "arbitrary bytes len<=%d" % ln(t)) for t in INT_TYPES]
     fl = [H("pf::p1_%s_%s_4" % (f, m), "float %s parser, numeric back end stubbed: no panic, count<=len, error index<=len" % m, "arbitrary bytes len<=4") for f in ("f32", "f64") for m in ("partial", "complete")]
     if tier == "quick":
         groups.append(KGroup("D", ints, timeout=900, jobs=10, mem_gb=14, label="integers default"))
